@@ -2,6 +2,7 @@ import Vore.Model.Engine
 import Vore.Lemmas.SimR
 import Vore.Lemmas.ResolveWF
 import Vore.Lemmas.Flatten
+import Vore.Lemmas.Expand
 /-!
 # C13 — Definitions are transparent; commands, runs and compilations are independent
 
@@ -110,6 +111,17 @@ theorem C13_spellings_same_vm_results (G1 G2 : GEnv) (e1 e2 : Expr) (r1 r2 : REx
   exact C13_vm_follows_spec r1 r2 (resolveBody_unique G1 e1 r1 hr1) (resolveBody_unique G2 e2 r2 hr2)
     (resolveBody_wf G1 e1 r1 hG1 he1 hr1) (resolveBody_wf G2 e2 r2 hG2 he2 hr2) n1 n2 text pf cf nid1 nid2 A hA hA2
 
+open Vore.Spec in
+/-- **a program with definitions means what its expansion means**: when writing every definition out in place
+(`flattenN`, deep enough) leaves no call and no predicate, the matches of the body with its inline subroutines and
+global patterns are exactly the matches of the resulting call-free pattern — whose specification is the
+declarative list reading of `Spec.outs` (C01_spec_is_first_of_all_matches) -/
+theorem C13_meaning_is_expansion (text : Bytes) (pf cf : Nat) (r : RExpr)
+    (h : expandable (flattenN (procsOf r) cf r) = true) :
+    CallFree (toExpr (flattenN (procsOf r) cf r)) ∧
+    findAllR text pf cf r = findAll text (toExpr (flattenN (procsOf r) cf r)) :=
+  ⟨callFree_toExpr _ h, findAllR_eq_findAll_expansion text pf cf r h⟩
+
 section examples
 open Vore.Spec
 
@@ -131,6 +143,11 @@ example : ∃ r1 r2 r3, resolveBody [] inPlace = some r1 ∧ resolveBody [] with
     flattenN (procsOf r2) 1 r2 = flattenN (procsOf r3) 1 r3 :=
   ⟨_, _, _, rfl, rfl, rfl, rfl, rfl⟩
 
+/-- non-vacuity: the `{B} = s … s` spelling expands to the in-place pattern `'x' B '-' B` -/
+example : ∃ r, resolveBody [] withSub = some r ∧ expandable (flattenN (procsOf r) 1 r) = true ∧
+    toExpr (flattenN (procsOf r) 1 r) = inPlace :=
+  ⟨_, rfl, rfl, rfl⟩
+
 end examples
 
 #print axioms C13_sub_transparent
@@ -140,6 +157,7 @@ end examples
 #print axioms C13_transparent_in_context
 #print axioms C13_same_flattening_same_matches
 #print axioms C13_spellings_same_vm_results
+#print axioms C13_meaning_is_expansion
 #print axioms C13_concat
 #print axioms C13_relocate_atoms
 
